@@ -23,7 +23,7 @@ WORKERS = {"quick": 4, "thorough": 16}
 CONTEXTS = ["bare", "params", "photos", "photos+params", "wrapped", "extended-daughters", "extended-params", "space-before-semicolon"]
 REQUIRED = {**{f"context:{c}": 135 for c in CONTEXTS}, "published-name-in-all-contexts": 1, "prefix-pairs-all": 1, "published-after-user-registration": 135,
             "user-name": 200, "user-name:special-char:.": 3, "user-name:special-char:+": 3, "user-name:special-char:*": 3, "user-name:special-char:(": 3,
-            "user-name:ends-in-nonword": 5, "user-name:extends-published": 20, "user-name:prefix-of-published": 20, "registration:several-calls": 20, "registered-names-second-parse": 20,
+            "user-name:ends-in-nonword": 5, "user-name:extends-published": 20, "user-name:prefix-of-published": 20, "registration:several-calls": 20, "registered-names-second-parse": 20, "grammar-accessed-before-registration": 10,
             "near-miss-rejected": 300, "near-miss:dot-replaced": 3, "near-miss:alias-misspelled": 5, "near-miss:alias-of-an-earlier-file": 5, "near-miss:registered-on-another-instance": 20, "alias-name-extends-model": 20}
 EXHAUSTIVE_NOTE = "all 135 published names x 8 contexts and all ordered prefix pairs are enumerated across the workers in every run"
 ASSUMPTIONS = ["labels next to model names extend them by letters, digits or '_' only (PHSP-x is, by the language's own tokenisation, PHSP with parameter -x)",
@@ -87,7 +87,11 @@ def check_accept(ctx, stmts, user_calls, label, nontrivial=True):
     wit = {"kind": "accept", "text": text, "user_calls": [list(c) for c in user_calls], "label": label}
     ctx.case({"text": text, "calls": [list(c) for c in user_calls]}, nontrivial, "enum" if label != "user" else "gen")
     exp = L.expected(stmts)
-    ok, res = ctx.guard("parse-supported-model", wit, snapshot.make_parser, text, None, um, True, user_calls if user_calls else None)
+    gfirst = bool(user_calls) and ctx.rng.random() < 0.35
+    if gfirst:
+        ctx.hit("grammar-accessed-before-registration")
+        wit["grammar_first"] = True
+    ok, res = ctx.guard("parse-supported-model", wit, snapshot.make_parser, text, None, um, True, user_calls if user_calls else None, gfirst)
     if not ok:
         return False
     p, _ = res
